@@ -23,8 +23,8 @@ CHECKS = [
   "Kill: a child process runs a seeded history and is SIGKILLed after a generated number of acknowledgements plus a sub-millisecond delay. Power loss: a history runs under the I/O tap; every file is rebuilt as of a generated event and cut at a generated length beyond its last completed sync (optionally zero-filled tail). In both, init must succeed; every blob whose records tile it exactly must be served in full (all queries equal a model built from the independent parse); every other blob must sit byte-identical in the corrupted dir with a matching count and recovery_blob must return its complete prefix; writes after recovery must survive a further restart, also with all index files lost. Kill additionally: every acknowledged record is physically complete in a served or recoverable blob. Enumerated phase: the active blob cut at a stride of / every byte of its last two records.",
   "Power-loss model = per-file prefix beyond the last completed sync; directory-entry durability and tearing inside synced data are out of scope (as in the statement). The failing crash directory itself is saved as the replay because trace interleavings differ between runs."),
  ("C07", "exploration", "history invariant over byte snapshots of every blob file + append-only rules over the I/O tap trace",
-  "Histories over all public calls, restarts with index damage and crash-restarts with harness-made blob damage that forces quarantine. After every step every *.blob (work dir and corrupted dir) is compared byte-wise with its previous snapshot (prefix-monotone, or moved intact to the corrupted dir and immutable there), new blob ids must never have been used in either directory, and the tap trace must show only append-position writes to blobs, no truncate/remove/foreign rename of a blob, and no mutation event at all while a batch of every query kind runs at idle.",
-  "Blob damage injected by the harness re-baselines the snapshot. Crash copies and I/O failpoints are exercised by C06/C11 with their own no-harm clauses."),
+  "Histories over all public calls, restarts with index damage, one-shot injected I/O failures (n-th create/open/write/short write/sync on blob or index files) and crash-restarts with harness-made blob damage that forces quarantine. After every step every *.blob (work dir and corrupted dir) is compared byte-wise with its previous snapshot (prefix-monotone, or moved intact to the corrupted dir and immutable there), new blob ids must never have been used in either directory, and the tap trace must show only append-position writes to blobs, no truncate/remove/foreign rename of a blob, and no mutation event at all while a batch of every query kind runs at idle.",
+  "Blob damage injected by the harness re-baselines the snapshot. A failed write keeps its reserved range for the session; after a restart the file's real length is the baseline. Crash copies are exercised by C06 with its own no-harm clauses."),
  ("C08", "exploration", "concurrent history checking: N real client tasks with logical-clock stamps, max-register linearizability conditions, sequential-model equality at quiescence, independent parse of every blob file",
   "2-200 client tasks (bursts of 500-12000 writers) run seeded scripts against one Storage while a maintenance task switches/syncs/frees/closes underneath and blobs rotate every 20-80 records, on three runtime configurations and on fresh or reopened active blobs. Every completed read is checked against the three max-register linearizability conditions (nothing invented, not stale, monotone), the final state against the sequential model of acknowledged operations, and every blob file against tiling / offset / checksum / exactly-once rules. Deadlock is reported only on a structural witness from the H3 probe.",
   "Weakest fit of the technique: interleavings are sampled from the real scheduler, not enumerated or controlled; a race with a microsecond window can be missed. The replay re-runs the same scripts but re-samples the schedule. Open known finding: the ~8000-writer channel/lock deadlock (burst phase)."),
@@ -41,10 +41,10 @@ CHECKS = [
   "Generated histories with dirty-byte limits {0,1,100,4096,1MiB,default}, value sizes around the write-path thresholds and concurrent write bursts run under the I/O tap with payload capture; the ordered trace must satisfy: blob header synced before the first record, index marked complete only after the blob bytes it describes were synced, explicit fsyncdata / close of the active blob / close leave no un-synced byte of that blob, and at every idle point the active blob's un-synced bytes are within the limit. A second generated phase injects one failing sync of a blob file (failpoint, EIO/ENOSPC) into write/burst/fsyncdata histories and judges the idle rule at every idle point that follows an acknowledged write made after the failure.",
   "A write counts as covered by a sync only if its end event precedes the sync's begin event. 'Eventually' is judged at quiescence (H3 probe)."),
  ("C13", "exploration", "property testing of liveness at quiescence: arbitrary call sequences followed by an overflow probe judged through the background-worker probe",
-  "Generated sequences over all public calls (all *_in_background variants in every active-blob state, force_update predicates, data ops, restarts) with tiny blob limits; then the active blob is aged past the 200 ms debounce and over-filled; at idle (nothing queued, nothing running) the worker must be alive, a switch must have happened, every non-empty closed blob must have a complete current index file, and close() must return.",
+  "Generated sequences over all public calls (all *_in_background variants in every active-blob state, force_update predicates incl. a slow one that makes the worker late for a pending deferred dump, data ops, restarts) with tiny blob limits; then the active blob is aged past the 200 ms debounce and over-filled; at idle (nothing queued, nothing running) the worker must be alive, a switch must have happened, every non-empty closed blob must have a complete current index file, and close() must return.",
   "Liveness is judged at quiescence observed through hook H3, so a missing switch is definite; a close() that does not return within 120 s ends the run inconclusive (exit 2)."),
  ("C14", "fault_enumeration", "cancellation-point enumeration: victim future polled with a flag waker and dropped after k resumptions, judged against applied / not-applied / applied-from-restart model worlds",
-  "Generated prefix, one victim call of every kind (writes across the size thresholds, deletes over several blobs, close/create/restore of the active blob, fsyncdata) dropped after k resumptions on both runtime flavours, generated suffix and restarts. All data answers must match a world in which the victim is applied entirely or not at all (a record that reached the file but not the index may take effect from a restart on); later operations must succeed; after the final restart nothing is quarantined and every blob file parses and validates. Enumerated phase: every victim kind x every k x both runtimes x fresh/reopened active blob.",
+  "Generated prefix, one victim call of every kind (writes across the size thresholds, deletes over several blobs, close/create/restore of the active blob, fsyncdata) dropped after k resumptions on both runtime flavours, generated suffix and restarts. All data answers must match a world in which the victim is applied entirely or not at all (a record that reached the file but not the index may take effect from a restart on); later operations must succeed; after the final restart nothing is quarantined and every blob file parses and validates. Enumerated phase: every victim kind x every k x both runtimes x fresh/reopened active blob. Overlap phase: one-thread blocking pool held by a gate, a write polled once and dropped, the next write started at once, gate opened - acknowledged writes read back exactly, the dropped one is absent or complete, blobs parse completely, nothing is quarantined at an index-less restart.",
   "Suspension points are those the runtime produces. Open known findings: a dropped blob creation leaves an empty blob file that the next start quarantines; a dropped delete may have marked only some of the blobs."),
  ("C15", "exploration", "model-based property testing of accounting values",
   "records_count*, blobs_count, next_blob_id, corrupted_blobs_count compared with the model after every step of generated histories (restore, delete into closed blobs, forced switches, clean restarts, restarts without close with blob damage that quarantines a blob); disk_used compared with the directory listing at every idle point.",
